@@ -165,6 +165,11 @@ def c06_boundary():
     out.append(dict(args=[i64, 'd'] * 45, nfixed=90, vararg=False, res=['d', 'i64']))
     out.append(dict(args=['u8', 'f', 'i16', 'd', 'u32', 'ld'] * 11, nfixed=66, vararg=False, res=['ld']))
     out.append(dict(args=['p'] + [i64, 'd'] * 35, nfixed=1, vararg=True, res=['i64']))
+    # size-0 blocks (empty struct by value)
+    out.append(dict(args=[i64] * 7 + ['blk:0', i64], nfixed=9, vararg=False, res=['i64']))
+    out.append(dict(args=['blk:0', i64], nfixed=2, vararg=False, res=['i64']))
+    out.append(dict(args=['p', i64, 'blk:0', 'd'], nfixed=1, vararg=True, res=[]))
+    out.append(dict(args=['blk1:8', 'blk:0', 'd', 'blk2:16'], nfixed=4, vararg=False, res=['d']))
     for p in out:
         p['style'] = 'boundary'
     return out
